@@ -14,6 +14,7 @@ import (
 	"time"
 
 	"github.com/Comcast/rulio/core"
+	"github.com/Comcast/rulio/cron"
 	"github.com/Comcast/rulio/service"
 	"github.com/Comcast/rulio/sys"
 	"verif/harness/enc"
@@ -92,6 +93,7 @@ type World struct {
 	Svc      *service.Service
 	nreq     int
 	Cron     *RecCron
+	ICron    *cron.Cron
 	closers  []func()
 }
 
@@ -170,7 +172,7 @@ func NewWorld(cfg Config, r *Recorder, store core.Storage) (*World, error) {
 	}
 	w.Events = append(w.Events, map[string]interface{}{"ev": "reset", "locs": names,
 		"state": cfg.State, "store": cfg.Store, "via": cfg.Via, "check": cfg.Via != "" && cfg.Sys.CheckExistence,
-		"ttl": cfg.Sys.TTL})
+		"ttl": cfg.Sys.TTL, "cronkind": cfg.Sys.Cron})
 	return w, nil
 }
 
@@ -487,6 +489,8 @@ recorded:
 		"disk": w.diskIds(), "msg": res.Msg, "enc": res.Enc, "crashes": images, "fault": fired,
 	}
 	w.Faulted = w.Faulted || fired
+	regs, njobs := w.cronState()
+	ev["cron"], ev["cron_n"] = regs, njobs
 	if res.Bad {
 		ev["res"].(map[string]interface{})["c"] = "unintelligible"
 	}
